@@ -210,18 +210,36 @@ def coqchk(pid, timeout=3000):
             return c
     except (OSError, ValueError):
         pass
-    t0 = time.time()
-    rc, out = sh("timeout %d coqchk -silent -o -Q . ZB ZB.props.Props_%s" % (timeout, pid), cwd=COQ, timeout=timeout + 30)
-    ok = rc == 0 and "CONTEXT SUMMARY" in out
-    m = re.search(r"CONTEXT SUMMARY\n=+\n(.*)", out, flags=re.S)
-    summary = m.group(1) if m else out[-2000:]
-    sect = {}
-    for name, body in re.findall(r"\* ([^:\n]+):(.*?)(?=\n\* |\Z)", summary, flags=re.S):
-        sect[name.strip()] = " ".join(body.split())
-    res = {"key": key, "ok": ok, "rc": rc, "summary": sect, "seconds": round(time.time() - t0, 1), "cached": False}
-    if not ok:
-        res["tail"] = out[-2000:]
-    else:
+    def one_run(pids):
+        t0 = time.time()
+        mods = " ".join("ZB.props.Props_%s" % q for q in pids)
+        rc, out = sh("timeout %d coqchk -silent -o -Q . ZB %s" % (timeout, mods), cwd=COQ, timeout=timeout + 30)
+        ok = rc == 0 and "CONTEXT SUMMARY" in out
+        m = re.search(r"CONTEXT SUMMARY\n=+\n(.*)", out, flags=re.S)
+        summary = m.group(1) if m else out[-2000:]
+        sect = {}
+        for name, body in re.findall(r"\* ([^:\n]+):(.*?)(?=\n\* |\Z)", summary, flags=re.S):
+            sect[name.strip()] = " ".join(body.split())
+        res = {"ok": ok, "rc": rc, "summary": sect, "seconds": round(time.time() - t0, 1), "cached": False, "checked_together": list(pids)}
+        if not ok:
+            res["tail"] = out[-2000:]
+        return res
+
+    # one coqchk run costs the same for one property file as for all of them (the shared libraries dominate): try to
+    # check every property file that is built and up to date in the same run, and cache each under its own digest
+    sh("timeout 1500 make -f Makefile.coq -k -j%d all" % NPROC, cwd=COQ, timeout=1530)
+    allp = sorted(fn[6:-3] for fn in os.listdir(os.path.join(COQ, "props")) if re.fullmatch(r"Props_C\d\d\.vo", fn))
+    keys = {q: hashlib.sha256(open(os.path.join(COQ, "props", "Props_%s.vo" % q), "rb").read()).hexdigest() for q in allp}
+    key = keys.get(pid, key)
+    res = one_run(allp) if len(allp) > 1 and pid in allp else {"ok": False}
+    if res["ok"]:
+        for q in allp:
+            with open(os.path.join(d, q + ".json"), "w") as f:
+                json.dump(dict(res, key=keys[q]), f)
+        return dict(res, key=key)
+    res = one_run([pid])
+    res["key"] = key
+    if res["ok"]:
         with open(cp, "w") as f:
             json.dump(res, f)
     return res
